@@ -452,6 +452,19 @@ func runOp(line string) string {
 		n := vs.EncodeValue(buf)
 		enc := buf[:n]
 		return vsDec(exact(enc)) + " " + hx(enc)
+	case "vs.size":
+		// what arena / skiplist / ART / SST builder do: allocate EncodedSize() bytes, EncodeValue
+		// into them, DecodeValue the whole buffer.
+		need(3)
+		vs := kv.ValueStruct{Meta: pU8(f[1]), ExpiresAt: pU64(f[2]), Value: pHex(f[3])}
+		size := vs.EncodedSize()
+		buf := make([]byte, size)
+		n := vs.EncodeValue(buf)
+		return fmt.Sprintf("%d:%d:%s", size, n, vsDec(exact(buf)))
+	case "ent.size":
+		need(3)
+		e := kv.Entry{Value: pHex(f[1]), Meta: pU8(f[2]), ExpiresAt: pU64(f[3])}
+		return fmt.Sprintf("%d", e.EncodedSize())
 	case "vs.dec":
 		need(1)
 		return vsDec(pHex(f[1]))
